@@ -408,6 +408,8 @@ Qed.
 #[export] Hint Rewrite <- app_assoc : pynorm.
 (* gencsv: the equalities gen_py_<name> = ix_<name> already proved in the generated file (added there) *)
 #[export] Hint Rewrite app_nil_l : gencsv.
+(* genhelpers: the helper functions of a generated file (Hint Unfold, added there): unfolded = inlined *)
+Create HintDb genhelpers.
 
 Lemma py_find_ge s p i : (-1 <= py_find s p i)%Z.
 Proof.
@@ -422,7 +424,7 @@ Proof. unfold zlen. lia. Qed.
 (* case analysis on every scrutinee (Boolean operators are spelled as matches first) *)
 Ltac gen_break :=
   unfold orb, andb, negb in *;
-  repeat (cbn [fst snd] in *;
+  repeat (cbn [fst snd option_map m_start m_end m_group0 m_group1] in *;
           match goal with
           | |- ?x = ?x => reflexivity
           | |- context [match ?x with _ => _ end] =>
@@ -459,7 +461,7 @@ Ltac gen_leaf :=
 
 Ltac gen_pointwise :=
   intros; repeat match goal with p : (_ * _)%type |- _ => destruct p end;
-  autorewrite with gencsv; autorewrite with pynorm; gen_break; gen_leaf.
+  autounfold with genhelpers; cbv beta zeta; autorewrite with gencsv; autorewrite with pynorm; gen_break; gen_leaf.
 
 (* the two sides contain loop combinators whose functions differ: replace the left one by the right one, pointwise *)
 Ltac gen_loops :=
@@ -497,6 +499,6 @@ Ltac gen_loops :=
 Ltac gen_csv_eq g h :=
   intros;
   first [ reflexivity
-        | unfold g, h; cbv beta zeta; autorewrite with gencsv; autorewrite with pynorm;
+        | unfold g, h; autounfold with genhelpers; cbv beta zeta; autorewrite with gencsv; autorewrite with pynorm;
           first [ reflexivity
                 | gen_loops; gen_break; gen_leaf ] ].
